@@ -72,6 +72,15 @@ class Check:
         self.exhaustive = False
         self.machinery = []         # machinery problems (never reported as violations)
         self.findings = load_findings(pid)
+        # replay files are per run: remove those of earlier runs of this property
+        d = os.path.join(REPLAYS, pid)
+        if os.path.isdir(d) and not os.environ.get("VERIF_KEEP_REPLAYS"):
+            for fn in os.listdir(d):
+                if fn.endswith(".json"):
+                    try:
+                        os.unlink(os.path.join(d, fn))
+                    except OSError:
+                        pass
 
     # ---- bookkeeping ----
     def add_tlc(self, name, res):
